@@ -354,6 +354,10 @@ def client_harnesses(tier):
     for ops_ in pairs:
         for mps in (1, 2, None):
             hs.append(("H3", ops_, mps, 0))
+    # the same pairs once more at a higher preemption bound but line granularity (tag "L" in the idle slot)
+    for ops_ in [("get", "quit"), ("get", "fail"), ("set", "quit"), ("quit", "quit"), ("fail", "quit")]:
+        for mps in (1, 2):
+            hs.append(("H3", ops_, mps, "L"))
     hs.append(("H3", ("get", "set"), 2, 10))
     hs.append(("H3", ("get", "set", "fail"), 2, 0))
     hs.append(("H3", ("get", "close"), 2, 0))
@@ -367,6 +371,8 @@ def client_harnesses(tier):
 def bounds(tier, h):
     kind = h[0]
     three = len(h[1]) >= 3
+    if kind == "H3" and len(h) > 3 and h[3] == "L":
+        return (2 if tier == "quick" else 3), "line"
     if tier == "quick":
         if kind == "H1":
             return 2, "instruction"
@@ -388,7 +394,7 @@ def _worker(job, chk):
     def run(ch):
         if kind in ("H1", "H2"):
             return run_pool(ch, h[1], h[2], h[3], gran)
-        return run_client(ch, h[1], h[2], h[3], gran)
+        return run_client(ch, h[1], h[2], 0 if h[3] == "L" else h[3], gran)
 
     def outcome_of(res):
         if kind in ("H1", "H2"):
@@ -452,7 +458,7 @@ def replay(detail):
         res = run_pool(ch, h[1], h[2], h[3], gran)
         bad = judge_pool(*res, h[1], h[2])
     else:
-        res = run_client(ch, h[1], h[2], h[3], gran)
+        res = run_client(ch, h[1], h[2], 0 if h[3] == "L" else h[3], gran)
         bad = judge_client(*res, h[1], h[2])
     print("    schedule:", ch.trace)
     for t in res[0].threads:
